@@ -141,7 +141,13 @@ func (index *indexComparison) compareNodeByName(a, b *Node) int {
 	case bIsInt:
 		return 1
 	default:
-		return cmp.Compare(aFeature.RawString(index), bFeature.RawString(index))
+		if c := cmp.Compare(aFeature.RawString(index), bFeature.RawString(index)); c != 0 {
+			return c
+		}
+		// Labels of different types can share the same raw string,
+		// such as "#a" and #a. Order them by type, so that the result
+		// does not depend on the order in which the nodes were collected.
+		return cmp.Compare(aFeature.Typ(), bFeature.Typ())
 	}
 }
 
